@@ -35,11 +35,11 @@ def src_clifiles(tier, seed):
         for f in c["files"]:
             name = "f%d.lua" % f["i"]
             path = name if f["loc"] == "arg" else "d/" + name
-            if f["loc"] == "dir" and not have_dir:
+            if f["loc"] in ("dir", "both") and not have_dir:
                 have_dir = True
                 tree.append({"path": "d", "kind": "dir"})
                 argv_paths.append("d")
-            if f["loc"] == "arg":
+            if f["loc"] in ("arg", "both"):     # "both": also reachable through the directory argument
                 argv_paths.append(path)
             ent = {"path": path, "class": f["cls"], "i": f["i"]}
             if f["cls"] == "crash":
